@@ -107,3 +107,17 @@ Definition h_check (tol : Qc) (c : hcase) : list nat :=
   (if forallb (fun p => vclose tol (snd p) (haar_fwd_nd c (qunit n (fst p)))) (h_cols c) then [] else [1%nat]) ++
   (if forallb (fun p => vclose tol (snd p) (haar_fwd_nd c (fst p))) (h_vecs c) then [] else [2%nat]) ++
   (if forallb (fun p => vclose tol (snd p) (haar_adj_nd c (fst p))) (h_adj c) then [] else [3%nat]).
+
+(* ---- DWT2D(haar): implementation columns vs the 2-D model of Ops/Haar2D.v, executed exactly in
+   Q(sqrt 2); arrays are lists of rows, a leading batch axis is a list of arrays ---- *)
+From PV Require Import Haar2D.
+Definition memb (X : list (list Qc)) : list (list Q2) := map (map q2emb) X.
+Definition mapp (r2 : Qc) (X : list (list Q2)) : list (list Qc) := map (map (q2app r2)) X.
+Record h2case := { g_id : nat; g_r : nat; g_c : nat; g_L : nat; g_r2 : Qc;
+  g_fw : list (list (list (list Qc)) * list (list (list Qc)));    (* (batch of X, batch of Op X) *)
+  g_ad : list (list (list (list Qc)) * list (list (list Qc))) }.  (* (batch of Y, batch of Op^H Y) *)
+Definition h2_check (tol : Qc) (c : h2case) : list nat :=
+  let fw X := mapp (g_r2 c) (dwt2_fwd Q2S q2c (g_L c) (g_r c) (g_c c) (memb X)) in
+  let ad Y := mapp (g_r2 c) (dwt2_adj Q2S q2c (g_L c) (g_r c) (g_c c) (memb Y)) in
+  (if forallb (fun p => all2 (mclose tol) (snd p) (map fw (fst p))) (g_fw c) then [] else [1%nat]) ++
+  (if forallb (fun p => all2 (mclose tol) (snd p) (map ad (fst p))) (g_ad c) then [] else [2%nat]).
